@@ -448,3 +448,12 @@ def check(ctx: Ctx) -> None:
     from .C03 import check_autoclose
     check_autoclose(ctx, "C10.i")
 
+    # the endmarker is also delivered for a channel whose object was dropped while the callback stays registered ...
+    from .C18 import check_unregister_total
+    check_unregister_total(ctx, "C10.k")
+    # ... when the connection is lost, whatever the transport (the receiver epilogue reaches the sweep before anything that can raise) ...
+    from .C04 import check_receiver_epilogue
+    check_receiver_epilogue(ctx, "C10.l")
+    # ... and when the peer's last message arrives (send-only transition: the registration is removed and the end marker fired as well)
+    from .C03 import check_transition_complete
+    check_transition_complete(ctx, "C10.m")
